@@ -201,8 +201,164 @@ func buildTemplates(tier string) []tmpl {
 			{Abstract: true, ReqVars: []string{"v0"}, ReqFlavors: []int{0}},
 			{Comps: []int{1, 0}}},
 			[]Method{{F: 1, Kind: "before", Msg: "m"}, {F: 0, Kind: "primary", Msg: "m"}}},
+		// relaying daemons: the outermost whopper or a :before daemon sends the
+		// same message to self once more before the combination goes on
+		tmpl{"relay/siblings", shapes[0].flavors, []Method{{F: 2, Kind: "whopper", Msg: "m", Relay: true}, {F: 0, Kind: "whopper", Msg: "m"},
+			{F: 1, Kind: "before", Msg: "m", Relay: true}, {F: 1, Kind: "primary", Msg: "m"}}},
+		tmpl{"relay/chain3", shapes[2].flavors, []Method{{F: 2, Kind: "whopper", Msg: "m", Relay: true}, {F: 1, Kind: "whopper", Msg: "m", Relay: true},
+			{F: 0, Kind: "whopper", Msg: "m"}, {F: 1, Kind: "after", Msg: "m"}}},
+		tmpl{"relay/befores", shapes[0].flavors, []Method{{F: 0, Kind: "before", Msg: "m", Relay: true}, {F: 1, Kind: "before", Msg: "m", Relay: true},
+			{F: 2, Kind: "after", Msg: "m"}, {F: 0, Kind: "primary", Msg: "m"}}},
+		tmpl{"relay/setter", []Flavor{
+			{Vars: []Var{vr(0, 10)}, Get: []string{"v0"}, Set: []string{"v0"}},
+			{Comps: []int{0}}},
+			[]Method{{F: 1, Kind: "whopper", Msg: "set-v0", Relay: true}, {F: 0, Kind: "before", Msg: "set-v0", Relay: true}, {F: 0, Kind: "after", Msg: "set-v0"}}},
+		tmpl{"relay/stop", shapes[2].flavors, []Method{{F: 2, Kind: "whopper", Msg: "m", Relay: true}, {F: 1, Kind: "whopper", Msg: "m", Stop: true},
+			{F: 0, Kind: "before", Msg: "m"}}},
+		// whoppers that continue twice: everything they wrap runs twice
+		tmpl{"twice/chain3", shapes[2].flavors, []Method{{F: 2, Kind: "whopper", Msg: "m", Twice: true}, {F: 1, Kind: "whopper", Msg: "m"},
+			{F: 0, Kind: "whopper", Msg: "m"}, {F: 0, Kind: "before", Msg: "m"}}},
+		tmpl{"twice/inner", shapes[2].flavors, []Method{{F: 2, Kind: "whopper", Msg: "m"}, {F: 1, Kind: "whopper", Msg: "m", Twice: true},
+			{F: 0, Kind: "whopper", Msg: "m"}, {F: 1, Kind: "primary", Msg: "m"}}},
+		tmpl{"twice/siblings", shapes[0].flavors, []Method{{F: 0, Kind: "whopper", Msg: "m", Twice: true}, {F: 1, Kind: "whopper", Msg: "m", Twice: true},
+			{F: 1, Kind: "after", Msg: "m"}, {F: 2, Kind: "before", Msg: "m"}}},
+		tmpl{"twice/stop", shapes[2].flavors, []Method{{F: 2, Kind: "whopper", Msg: "m", Twice: true}, {F: 1, Kind: "whopper", Msg: "m"},
+			{F: 0, Kind: "whopper", Msg: "m", Stop: true}}},
+		tmpl{"twice/getter", []Flavor{
+			{Vars: []Var{vr(0, 10)}, Get: []string{"v0"}, Set: []string{"v0"}},
+			{Comps: []int{0}}, {Comps: []int{1}}},
+			[]Method{{F: 2, Kind: "whopper", Msg: "v0", Twice: true}, {F: 1, Kind: "whopper", Msg: "v0"}, {F: 0, Kind: "whopper", Msg: "set-v0", Twice: true},
+				{F: 1, Kind: "whopper", Msg: "set-v0"}}},
+		tmpl{"relay/error", shapes[0].flavors, []Method{{F: 0, Kind: "before", Msg: "m", Relay: true}, {F: 1, Kind: "before", Msg: "m"},
+			{F: 1, Kind: "primary", Msg: "m", Err: true}}},
 	)
 	return out
+}
+
+// pkgTemplates: some of the methods are defined while another package is the
+// current one (Step.Pkg = 1 on the steps of the methods listed in foreign).
+var pkgTemplates = []struct {
+	t       tmpl
+	foreign []int
+}{
+	{tmpl{"pkg/siblings-before", shapes[0].flavors, []Method{{F: 0, Kind: "before", Msg: "m"}, {F: 1, Kind: "before", Msg: "m"}}}, []int{0, 1}},
+	{tmpl{"pkg/chain-primary", shapes[2].flavors, []Method{{F: 0, Kind: "primary", Msg: "m"}, {F: 1, Kind: "primary", Msg: "m"}, {F: 2, Kind: "whopper", Msg: "m"}}}, []int{0, 1}},
+	{tmpl{"pkg/chain-whopper", shapes[2].flavors, []Method{{F: 0, Kind: "whopper", Msg: "m"}, {F: 1, Kind: "after", Msg: "m"}}}, []int{0}},
+	{tmpl{"pkg/init-after", shapes[2].flavors, []Method{{F: 0, Kind: "after", Msg: "init"}, {F: 1, Kind: "before", Msg: "init"}}}, []int{0}},
+	{tmpl{"pkg/getter-before", []Flavor{{Vars: []Var{{N: 0, D: 10}}, Get: []string{"v0"}, Set: []string{"v0"}}, {Comps: []int{0}}, {Comps: []int{1}}},
+		[]Method{{F: 0, Kind: "before", Msg: "v0"}, {F: 1, Kind: "primary", Msg: "set-v0"}}}, []int{1}},
+}
+
+// full5Cases: hierarchies of five flavors in which every flavor has a daemon
+// of every kind (or of one kind) for :m, so that sends with five whoppers,
+// five :before, five :after daemons and five candidate primaries are
+// observed; 12 orders each (4 per bias) from a generator that does not
+// depend on VERIF_SEED.
+func full5Cases() []Case {
+	shapes5 := []struct {
+		name string
+		fl   []Flavor
+	}{
+		{"chain5", []Flavor{fl(), fl(0), fl(1), fl(2), fl(3)}},
+		{"fan5", []Flavor{fl(), fl(), fl(), fl(0, 1, 2), fl(3)}},
+		{"lattice5", []Flavor{fl(), fl(0), fl(0), fl(1, 2), fl(3, 2, 0)}},
+		{"rev5", []Flavor{fl(), fl(), fl(1, 0), fl(0, 1), fl(3, 2, 1)}},
+	}
+	sets := []struct {
+		name  string
+		kinds []string
+		vars  bool
+	}{
+		{"all", kinds, false}, {"whoppers", []string{"whopper"}, false}, {"daemons", []string{"before", "after"}, false},
+		{"primaries", []string{"primary"}, false}, {"defaults", []string{"before"}, true},
+	}
+	var out []Case
+	for si, sh := range shapes5 {
+		for mi, set := range sets {
+			c := Case{Tmpl: "full5/" + sh.name + "/" + set.name, Rel: true}
+			for k, f := range sh.fl {
+				f := Flavor{Comps: f.Comps}
+				if set.vars {
+					f.Vars = []Var{{N: 0, D: 100 * (k + 1)}}
+					if k%2 == 0 {
+						f.Vars = append(f.Vars, Var{N: 1, ND: true})
+					} else {
+						f.Vars = append(f.Vars, Var{N: 1, D: 100*(k+1) + 1})
+					}
+					f.Keys = []Key{{N: 0, D: 10 * (k + 1)}}
+					if k == 0 {
+						f.Get, f.Set = []string{"v0", "v1"}, []string{"v1"}
+					}
+					if k == 2 {
+						f.Ini = []string{"v0"}
+					}
+				}
+				c.Flavors = append(c.Flavors, f)
+			}
+			for k := range sh.fl {
+				for _, kind := range set.kinds {
+					msg := "m"
+					if set.vars {
+						msg = []string{"v0", "set-v1", "v1", "init", "v0"}[k]
+					}
+					c.Methods = append(c.Methods, Method{F: k, Kind: kind, Msg: msg})
+				}
+			}
+			for n := 0; n < 12; n++ {
+				r := rand.New(rand.NewPCG(0xC11, uint64(si*1000+mi*100+n)))
+				cc := c
+				cc.Steps = randomOrder(r, &cc, n%3)
+				out = append(out, cc)
+			}
+		}
+	}
+	return out
+}
+
+// variantBases: templates whose first orders are run once more with forms
+// that have to fail in between, and once more after a decoy prelude.
+var variantBases = map[string]bool{"siblings/1/before": true, "chain/1/primary": true, "diamond/mixed": true, "bare/chain": true,
+	"siblings/getter": true, "defaults/chain3": true, "siblings/init2": true, "stop/inner": true}
+
+var badKinds = []string{"unknown-component", "unknown-included", "required-method", "bad-option"}
+
+// addFailing inserts n forms that have to fail into the history: a defmethod
+// with an unknown daemon type and a second defflavor after the flavor's
+// definition, a spoiled defflavor before it.
+func addFailing(r *rand.Rand, c *Case, n int) {
+	nf := len(c.Flavors)
+	if nf == 0 {
+		return
+	}
+	for ; 0 < n; n-- {
+		f := r.IntN(nf)
+		at := -1
+		for i, s := range c.Steps {
+			if (s.Op == "flavor" || s.Op == "flavor-err") && s.F == f {
+				at = i
+			}
+		}
+		if at < 0 || c.Steps[at].Op == "flavor-err" {
+			continue
+		}
+		switch r.IntN(3) {
+		case 0:
+			msg := "q"
+			if u := messageUniverse(c); 0 < len(u) && r.IntN(3) != 0 {
+				msg = fw_pick(r, u)
+			}
+			c.Steps = insertStep(c.Steps, at+1+r.IntN(len(c.Steps)-at), Step{Op: "method-err", F: f, Msg: msg})
+		case 1:
+			c.Steps = insertStep(c.Steps, at+1+r.IntN(len(c.Steps)-at), Step{Op: "flavor-dup", F: f})
+		default:
+			bad := fw_pick(r, badKinds)
+			if c.Flavors[f].Abstract && (bad == "unknown-included" || bad == "required-method") {
+				// an abstract flavor is not validated at defflavor time
+				bad = "unknown-component"
+			}
+			c.Steps = insertStep(c.Steps, r.IntN(at+1), Step{Op: "flavor-bad", F: f, Bad: bad})
+		}
+	}
 }
 
 // errTemplates: the defflavor of the last flavor has to be rejected.
@@ -284,12 +440,40 @@ func tmplBlock(tier string) *block {
 	if tier == "thorough" {
 		limit = 6000
 	}
+	var variants []Case
 	for _, t := range buildTemplates(tier) {
 		t := t
+		for n, steps := range extensions(&t, limit) {
+			c := Case{Tmpl: t.name, Rel: true, Flavors: t.flavors, Methods: t.methods, Steps: steps}
+			b.cases = append(b.cases, c)
+			if variantBases[t.name] && n < 24 {
+				fc := c
+				fc.Tmpl = "failing/" + t.name
+				fc.Steps = append([]Step{}, steps...)
+				addFailing(rand.New(rand.NewPCG(0xF11, uint64(n))), &fc, 2+n%2)
+				dc := c
+				dc.Tmpl = "decoy/" + t.name
+				dc.Decoy = true
+				variants = append(variants, fc, dc)
+			}
+		}
+	}
+	b.cases = append(b.cases, variants...)
+	for _, pt := range pkgTemplates {
+		t := pt.t
 		for _, steps := range extensions(&t, limit) {
+			steps = append([]Step{}, steps...)
+			for i := range steps {
+				for _, m := range pt.foreign {
+					if steps[i].Op == "method" && steps[i].M == m {
+						steps[i].Pkg = 1
+					}
+				}
+			}
 			b.cases = append(b.cases, Case{Tmpl: t.name, Rel: true, Flavors: t.flavors, Methods: t.methods, Steps: steps})
 		}
 	}
+	b.cases = append(b.cases, full5Cases()...)
 	b.cases = append(b.cases, errTemplates()...)
 	blocks[tier] = b
 	return b
@@ -450,57 +634,17 @@ func gen(r *rand.Rand, i int, tier string) Case {
 		seenM[m] = true
 		m.Stop = stop
 		m.Err = fails && m.Msg != "init" // an error in :init would leave no instance to observe
+		// a minority of whoppers and :before daemons send the message once more
+		if (m.Kind == "whopper" || m.Kind == "before") && 0 < arity(m.Msg) && m.Msg != "init" && !m.Err && !m.Stop && r.IntN(6) == 0 {
+			m.Relay = true
+		}
+		if m.Kind == "whopper" && !m.Err && !m.Stop && r.IntN(8) == 0 {
+			m.Twice = true
+		}
 		c.Methods = append(c.Methods, m)
 	}
 	// history: a random admissible order under one of three biases
-	mode := weighted(r, []int{4, 3, 3}) // 0 uniform, 1 methods early, 2 flavors first
-	doneF := make([]bool, nf)
-	doneM := make([]bool, len(c.Methods))
-	total := nf + len(c.Methods)
-	for len(c.Steps) < total {
-		var availF, availM []int
-		for f := 0; f < nf; f++ {
-			if doneF[f] {
-				continue
-			}
-			ok := true
-			for _, cp := range c.Flavors[f].deps() {
-				if !doneF[cp] {
-					ok = false
-				}
-			}
-			if ok {
-				availF = append(availF, f)
-			}
-		}
-		for m := range c.Methods {
-			if !doneM[m] && doneF[c.Methods[m].F] {
-				availM = append(availM, m)
-			}
-		}
-		pickF := false
-		switch {
-		case len(availM) == 0:
-			pickF = true
-		case len(availF) == 0:
-			pickF = false
-		case mode == 1:
-			pickF = r.IntN(8) == 0
-		case mode == 2:
-			pickF = r.IntN(8) != 0
-		default:
-			pickF = r.IntN(len(availF)+len(availM)) < len(availF)
-		}
-		if pickF {
-			f := fw_pick(r, availF)
-			doneF[f] = true
-			c.Steps = append(c.Steps, Step{Op: "flavor", F: f})
-		} else {
-			m := fw_pick(r, availM)
-			doneM[m] = true
-			c.Steps = append(c.Steps, Step{Op: "method", M: m})
-		}
-	}
+	c.Steps = randomOrder(r, &c, weighted(r, []int{4, 3, 3})) // 0 uniform, 1 methods early, 2 flavors first
 	// redefinition of a method (minority)
 	if 0 < len(c.Methods) && r.IntN(6) == 0 {
 		m := r.IntN(len(c.Methods))
@@ -541,7 +685,77 @@ func gen(r *rand.Rand, i int, tier string) Case {
 			}
 		}
 	}
+	// minorities: forms that have to fail in between; the names defined, used
+	// and removed once before; methods defined from another package
+	if r.IntN(6) == 0 {
+		addFailing(r, &c, 1+r.IntN(3))
+	}
+	if r.IntN(8) == 0 {
+		c.Decoy = true
+	}
+	if r.IntN(12) == 0 {
+		for i := range c.Steps {
+			if c.Steps[i].Op == "method" && r.IntN(2) == 0 {
+				c.Steps[i].Pkg = 1
+			}
+		}
+	}
 	return c
+}
+
+// randomOrder gives a random admissible order of the flavor and method forms
+// of c: mode 0 uniform, 1 methods as early as possible, 2 flavors first.
+func randomOrder(r *rand.Rand, c *Case, mode int) []Step {
+	nf := len(c.Flavors)
+	var steps []Step
+	doneF := make([]bool, nf)
+	doneM := make([]bool, len(c.Methods))
+	total := nf + len(c.Methods)
+	for len(steps) < total {
+		var availF, availM []int
+		for f := 0; f < nf; f++ {
+			if doneF[f] {
+				continue
+			}
+			ok := true
+			for _, cp := range c.Flavors[f].deps() {
+				if !doneF[cp] {
+					ok = false
+				}
+			}
+			if ok {
+				availF = append(availF, f)
+			}
+		}
+		for m := range c.Methods {
+			if !doneM[m] && doneF[c.Methods[m].F] {
+				availM = append(availM, m)
+			}
+		}
+		pickF := false
+		switch {
+		case len(availM) == 0:
+			pickF = true
+		case len(availF) == 0:
+			pickF = false
+		case mode == 1:
+			pickF = r.IntN(8) == 0
+		case mode == 2:
+			pickF = r.IntN(8) != 0
+		default:
+			pickF = r.IntN(len(availF)+len(availM)) < len(availF)
+		}
+		if pickF {
+			f := fw_pick(r, availF)
+			doneF[f] = true
+			steps = append(steps, Step{Op: "flavor", F: f})
+		} else {
+			m := fw_pick(r, availM)
+			doneM[m] = true
+			steps = append(steps, Step{Op: "method", M: m})
+		}
+	}
+	return steps
 }
 
 // decorate adds, in a minority of cases, an :included-flavors option, an
@@ -669,6 +883,12 @@ func messageUniverse(c *Case) []string {
 	}
 	for _, m := range c.Methods {
 		classify(m.Msg)
+	}
+	for _, st := range c.Steps {
+		// a message only a failed defmethod names: it has to stay unhandled
+		if st.Op == "method-err" && st.Msg == "q" {
+			classify("q")
+		}
 	}
 	anyGet, anySet := false, false
 	for _, f := range c.Flavors {
